@@ -118,6 +118,11 @@ HASHES = {0: hashlib.md5, 1: hashlib.sha256, 2: lambda b=b"": hashlib.new("sha51
 REUSE_MS = 30000
 DEF_TIMEOUT, DEF_MAXNC = 90, 1000
 GUARD = U32 - 1 - 64
+# what harness/h_nonce.c sets up before any `daemon` / `rq` line
+DEF_RND = b"verif-fixed-seed".hex()
+DEF_ADDR = "020010927f0000010000000000000000"
+DEF_RQ = (1, "GET", "2f", "none", DEF_ADDR)
+RESTORE = [["daemon", 0, DEF_RND], ["rq", 1, "GET", "2f", "none", DEF_ADDR]]
 
 
 def nonce_ts(n):
@@ -159,6 +164,8 @@ class Oracle:
         # which slot a nonce lives in is taken from what the real fast_simple_hash said
         # (op `hash`), so that another hash function is not a property violation
         self.slot_hash = slot_hash or {}
+        self.bind, self.rnd, self.req = 0, DEF_RND, DEF_RQ
+        self.gen_full, self.gen_bound = {}, {}
 
     def idx(self, nonce):
         h = self.slot_hash.get(nonce)
@@ -194,9 +201,106 @@ class Oracle:
             return "stale", "other-older"
         return "wrong", "other-newer"
 
+    def policy(self, nonce, ts):
+        """R3: may `nonce`, made for time `ts`, take its slot?  (expected answer, rule name)"""
+        cur = self.slots.get(self.idx(nonce))
+        if cur is None:
+            return "added", "add-empty"
+        if cur["nonce"][:len(nonce)] == nonce:
+            return "refused", "add-same"
+        if cur["used"]:
+            return "added", "add-evict-used"
+        if ((ts - cur["ts"]) % U64) % U48 > REUSE_MS:
+            return "added", "add-evict-old"
+        return "refused", "add-fresh-unused-kept"
+
+    def bound_view(self, algo, ts, realm):
+        """(everything the nonce may depend on, what the configured binding option *promises* it depends on)"""
+        mthd, tok, url, args, addr = self.req
+        ab = b"" if addr == "-" else bytes.fromhex(addr)
+        ip = ab[4:8] if len(ab) == 16 else ab[8:24] if len(ab) == 28 else b""
+        mclass = ("other", tok) if mthd == 1000 else ("std", 1 if mthd == 2 else mthd)      # HEAD counts as GET
+        full = (algo, ts % U48, self.rnd, self.bind, mthd, tok, url, args, addr, realm)
+        b = self.bind
+        bound = (algo, ts % U48, self.rnd, self.bind,
+                 (mclass, url) if b & 2 else None, args if b & 4 else None, realm if b & 1 else None, ip if b & 8 else None)
+        return full, bound
+
+    def gen_checks(self, nonce, algo, ts, realm):
+        """R5 format + R6 binding: the same inputs give the same nonce; a different *bound* input a different one"""
+        if len(nonce) != STD[algo] or any(c not in b"0123456789abcdef" for c in nonce) \
+                or int(nonce[-12:].decode(), 16) != ts % U48:
+            return "generated nonce does not have the documented format / embedded time"
+        full, bound = self.bound_view(algo, ts, realm)
+        if self.gen_full.setdefault(full, nonce) != nonce:
+            return "nonce generation is not a function of its inputs"
+        prev = self.gen_bound.get(nonce)
+        if prev is not None and prev != bound and self.bind != 0:
+            return "the same nonce for different bound inputs (bind=%d): %r / %r" % (self.bind, prev, bound)
+        self.gen_bound.setdefault(nonce, bound)
+        return None
+
     def feed(self, op, out):
         """returns (error or None, branch label)"""
         k = op[0]
+        if k == "daemon":
+            self.bind = int(op[1]) | (2 if int(op[1]) & 4 else 0)
+            self.rnd = op[2]
+            return (None if out == "ok" else "daemon refused"), "daemon"
+        if k == "rq":
+            self.req = (int(op[1]), op[2], op[3], op[4], op[5])
+            return (None if out == "ok" else "rq refused"), "rq"
+        if k == "gen":
+            algo, ts, realm = int(op[1]), int(op[2]), op[3]
+            w = out.split()
+            if len(w) != 2 or w[0] not in ("added", "refused"):
+                return "calculate_add_nonce: " + out, "gen-bad"
+            nonce = bytes.fromhex(w[1])
+            e = self.gen_checks(nonce, algo, ts, realm)
+            if e:
+                return e, "gen-format"
+            tag = "gen/bind%d/" % self.bind
+            if self.n == 0:
+                return (None if w[0] == "refused" else "registered without a table"), tag + "add-no-table"
+            exp, why = self.policy(nonce, ts)
+            if w[0] == "added":
+                self.slots[self.idx(nonce)] = {"nonce": nonce, "ts": ts, "used": set()}
+            if w[0] != exp:
+                return "registration policy: expected %s (%s), code says %s" % (exp, why, w[0]), tag + why
+            return None, tag + why
+        if k == "genr":
+            algo, t2, realm = int(op[1]), int(op[2]), op[4]
+            w = out.split()
+            if len(w) != 2 or w[0] not in ("true", "false"):
+                return "calculate_add_nonce_with_retry: " + out, "genr-bad"
+            nonce = bytes.fromhex(w[1])
+            if len(nonce) != STD[algo] or any(c not in b"0123456789abcdef" for c in nonce):
+                return "generated nonce does not have the documented format", "genr-format"
+            nts = int(nonce[-12:].decode(), 16)
+            first = nts == self.now % U48
+            if not first:
+                back = (self.now - nts) % U48
+                if not ((t2 != self.now and nts == t2 % U48) or (t2 == self.now and 1 <= back <= 127)):
+                    return "second attempt: time stamp %d is neither the second clock value nor 1..127 ms back" % nts, "genr-ts"
+            ts_full = self.now if first else (t2 if t2 != self.now else (self.now - ((self.now - nts) % U48)) % U64)
+            e = self.gen_checks(nonce, algo, ts_full, realm)
+            if e:
+                return e, "genr-format"
+            why = "genr/" + ("first" if first else "second") + "/" + w[0]
+            if self.n == 0:
+                return (None if (w[0] == "false" and first) else "no table, but answered " + out[:20]), why + "/no-table"
+            exp, pw = self.policy(nonce, ts_full)
+            if w[0] == "true":
+                self.slots[self.idx(nonce)] = {"nonce": nonce, "ts": ts_full, "used": set()}
+                if exp != "added":
+                    return "retry registered a nonce whose slot was not available (%s)" % pw, why
+                return None, why + "/" + pw
+            # false: the first nonce is handed out unregistered; its slot was not available
+            if not first:
+                return "retry failed but did not hand out the first nonce", why
+            if exp != "refused":
+                return "retry answered false although the slot of the first nonce was available (%s)" % pw, why
+            return None, why + "/" + pw
         if k == "table":
             self.n = int(op[1]); self.slots = {}
             return (None if out == "ok" else "table refused"), "table"
@@ -324,7 +428,24 @@ class Resolver:
         self.cache = {}
 
     def resolve(self, syms):
-        todo = sorted({s for s in syms if s not in self.cache})
+        syms = list(syms)
+        gtodo = sorted({s for s in syms if s[0] == "G" and s not in self.cache}, key=repr)
+        if gtodo:
+            # ("G", bind, rnd, rq-tuple, algo, ts, realm): the nonce the real calculate_add_nonce makes under that
+            # configuration for that request (no table: it returns right after calculate_nonce)
+            lines = ["table 0"]
+            for g in gtodo:
+                lines += ["daemon %d %s" % (g[1], g[2]), "rq " + " ".join(str(x) for x in g[3]),
+                          "gen %d %d %s" % (g[4], g[5], g[6])]
+            out, rc, err = vlib.run_lines(self.h, lines)
+            if rc != 0 or len(out) != len(lines):
+                raise vlib.BuildError("gen pre-query failed rc=%s: %s" % (rc, err[-800:]))
+            for i, g in enumerate(gtodo):
+                o = out[3 + 3 * i]
+                if not o.startswith("refused "):
+                    raise vlib.BuildError("gen pre-query: " + o)
+                self.cache[g] = o.split()[1]
+        todo = sorted({s for s in syms if s[0] == "N" and s not in self.cache})
         if todo:
             out, rc, err = vlib.run_lines(self.h, ["table 0"] + ["mknonce %d %d %s" % (s[1], s[2], s[3]) for s in todo])
             if rc != 0 or len(out) != len(todo) + 1:
@@ -350,7 +471,7 @@ def subst(seq, rs):
     for op in seq:
         o = []
         for w in op:
-            if isinstance(w, tuple) and w[0] == "N":
+            if isinstance(w, tuple) and w[0] in ("N", "G"):
                 o.append(rs.hexof(w))
             elif isinstance(w, tuple) and w[0] == "M":      # mutated nonce: ("M", sym, fn)
                 o.append(w[2](bytes.fromhex(rs.hexof(w[1]))).hex() or "-")
@@ -368,7 +489,7 @@ def subst(seq, rs):
 def syms_of(seq):
     for op in seq:
         for w in op:
-            if isinstance(w, tuple) and w[0] == "N":
+            if isinstance(w, tuple) and w[0] in ("N", "G"):
                 yield w
             elif isinstance(w, tuple) and w[0] == "M":
                 yield w[1]
@@ -547,6 +668,90 @@ def gen_directed(rng):
     return ops + tail + [["state"]]
 
 
+BINDS = [0, 1, 2, 4, 6, 8, 3, 9, 10, 12, 15]
+GEN_METHODS = [(1, "GET"), (2, "HEAD"), (3, "POST"), (4, "PUT"), (1000, "PATCH"), (1000, "M-SEARCH")]
+
+
+def rnd_sockaddr(rng):
+    k = rng.random()
+    if k < 0.15:
+        return "-"
+    port = rng.choice([80, 4242, 65535])
+    if k < 0.65:
+        return "0200%04x%s%s" % (port, bytes(rng.choice([[127, 0, 0, 1], [10, 0, 0, 2], [192, 168, 1, 9]])).hex(), "00" * 8)
+    ip6 = bytes([0x20, 0x01, 0x0d, 0xb8] + [0] * 11 + [rng.choice([1, 2])])
+    return "0a00%04x%s%s%s" % (port, "00000000", ip6.hex(), "00000000")
+
+
+def rnd_argspec(rng):
+    n = rng.choice([0, 0, 1, 2, 3])
+    if n == 0:
+        return "none"
+    hx_ = lambda b: b.hex() or "-"
+    parts = []
+    for _ in range(n):
+        k = bytes(rng.choice(b"abk\0=&") for _ in range(rng.choice([0, 1, 2])))
+        if rng.random() < 0.3:
+            parts.append(hx_(k))
+        else:
+            parts.append(hx_(k) + "=" + hx_(bytes(rng.choice(b"vw\0 %") for _ in range(rng.choice([0, 1, 3])))))
+    return ",".join(parts)
+
+
+def gen_generation(rng):
+    """nonce *generation* by the real calculate_add_nonce / calculate_add_nonce_with_retry on a scripted daemon
+    configuration (binding option, random seed) and request (method, url, GET arguments, client address), compared
+    byte for byte with the model's derivation (C16 hash specification composed); the generated nonce is then
+    presented (accepted), one input at a time is changed and the nonce generated again (oracle: equal iff no bound
+    input changed ... see Oracle.gen_checks), retry with / without a clock step and scripted random()"""
+    size = rng.choice([0, 1, 2, 2, 4])
+    t0 = rng.choice([1000, 5000000, U48 - 50, U48 + 77, U64 - 90, 77])
+    bind = rng.choice(BINDS)
+    rndhex = rng.choice(["-", "00", "7365", bytes(rng.randrange(256) for _ in range(rng.choice([1, 8, 32, 70]))).hex()])
+    algo = rng.choice([0, 1, 2])
+    realm = rng.choice(["72", "7265616c6d", "-", "723a78", "c3a4"])
+    m = rng.choice(GEN_METHODS)
+    url = rng.choice(["2f", "2f61", "2f612f62", bytes(rng.choice(b"/ab:%c3") for _ in range(rng.choice([1, 5, 60, 200]))).hex()])
+    rq = [m[0], m[1], url, rnd_argspec(rng), rnd_sockaddr(rng)]
+    eb = bind | (2 if bind & 4 else 0)
+    ops = [["table", size], ["clock", t0], ["daemon", bind, rndhex], ["rq"] + rq, ["gen", algo, t0, realm]]
+    G = ("G", bind, rndhex, tuple(rq), algo, t0, realm)
+    if size:
+        ops += [["check", G, 1], ["check", G, 1], ["check", G, 3], ["gen", algo, t0, realm]]
+    # one input at a time changed, same time stamp
+    variants = []
+    for _ in range(rng.randint(3, 7)):
+        r2 = list(rq)
+        realm2 = realm
+        what = rng.choice(["url", "args", "addr", "method", "realm", "same", "algo"])
+        if what == "url":
+            r2[2] = rq[2] + "62"
+        elif what == "args":
+            r2[3] = "6b=76" if rq[3] != "6b=76" else "6b=77"
+        elif what == "addr":
+            r2[4] = rnd_sockaddr(rng)
+        elif what == "method":
+            m2 = rng.choice(GEN_METHODS)
+            r2[0], r2[1] = m2
+        elif what == "realm":
+            realm2 = realm + "78" if realm != "-" else "78"
+        a2 = (algo + 1) % 3 if what == "algo" else algo
+        variants += [["rq"] + r2, ["gen", a2, t0, realm2]]
+        G2 = ("G", bind, rndhex, tuple(r2), a2, t0, realm2)
+        if size and rng.random() < 0.5:
+            variants.append(["check", G2, rng.choice([1, 2])])
+    ops += variants
+    # the retry: registered nonce in the way / not, clock moved / not, several random() values
+    ops += [["rq"] + rq, ["table", size], ["clock", t0]]
+    for _ in range(rng.randint(2, 5)):
+        t2 = rng.choice([t0, t0, (t0 + 1) % U64, (t0 + 130) % U64])
+        ops.append(["genr", algo, t2, rng.choice([0, 1, 12345, 0x7fffffff, rng.randrange(1 << 31)]), realm if realm != "-" else "72"])
+        if rng.random() < 0.3:
+            ops.append(["gen", algo, t0, realm if realm != "-" else "72"])
+    ops.append(["state"])
+    return ops + [list(x) for x in RESTORE]
+
+
 def gen_pure(rng, count):
     """pure-function probes: fast_simple_hash and get_nonce_timestamp"""
     ops = [["hash", "-"]] + [["hash", "%02x" % b] for b in range(256)]
@@ -643,7 +848,8 @@ def _worker(job):
         seed, count = args
         rng = random.Random(seed)
         planned = [gen_random_seq(rng) for _ in range(count)] + [gen_directed(rng) for _ in range(max(4, count // 20))] \
-            + [gen_lifetime(rng) for _ in range(max(12, count // 8))]
+            + [gen_lifetime(rng) for _ in range(max(12, count // 8))] \
+            + [gen_generation(rng) for _ in range(max(20, count // 4))]
         rs.resolve([x for s in planned for x in syms_of(s)])
     else:
         seed, count = args
@@ -688,22 +894,52 @@ class Spec:
                          "Mhd.C13.evicted_classification", "Mhd.C13.never_registered_slot_is_wrong",
                          "Mhd.C13.registration_policy", "Mhd.C13.issued_nonce_timestamp", "Mhd.C13.no_fault",
                          "Mhd.C13.api_is_present", "Mhd.C13.api_args", "Mhd.C13.expired_is_stale_api",
-                         "Mhd.C13.above_max_nc_is_stale_api", "Mhd.C13.window_complete_api"]
+                         "Mhd.C13.above_max_nc_is_stale_api", "Mhd.C13.window_complete_api",
+                         "Mhd.C13.generated_nonce_wellformed", "Mhd.C13.generated_nonce_passes_format_checks",
+                         "Mhd.C13.generated_nonce_expires", "Mhd.C13.generation_is_run_step",
+                         "Mhd.C13.generated_then_verified", "Mhd.C13.generated_then_verified_later",
+                         "Mhd.C13.generated_then_expired", "Mhd.C13.bound_same_inputs_accepted",
+                         "Mhd.C13.bound_inputs_differ_rejected", "Mhd.C13.bound_uri_rejected",
+                         "Mhd.C13.bound_uri_params_rejected", "Mhd.C13.bound_realm_rejected",
+                         "Mhd.C13.bound_client_ip_rejected", "Mhd.C13.unbound_not_rechecked",
+                         "Mhd.C13.nonce_length_matches_algorithm", "Mhd.C13.retry_timestamp_differs",
+                         "Mhd.C13.retry_outcome", "Mhd.C13.nonce_table_accessed_only_under_lock"]
     trusted_base = ["Lean 4 kernel", "axioms: propext, Classical.choice, Quot.sound at most (audited per theorem)",
-                    "hand-written model lean/Mhd/Model/Nonce.lean tied to digestauth.c by this run's correspondence",
-                    "tools/props/C13.py gen_nonce (REUSE_TIMEOUT, nonce lengths, field widths, nc guard regenerated)",
+                    "hand-written models lean/Mhd/Model/Nonce.lean, NonceGen.lean and calcNonce / nonceInput of "
+                    "lean/Mhd/Model/Dauth.lean, tied to digestauth.c by this run's correspondence (generated nonces are "
+                    "compared byte for byte)",
+                    "the hash specifications lean/Mhd/Model/Hash/Spec*.lean (C16 proves the C implementation computes them)",
+                    "tools/props/C13.py gen_nonce (REUSE_TIMEOUT, nonce lengths, field widths, nc guard regenerated), "
+                    "gen_noncegen (retry constants, shape of the back-jump computation)",
+                    "tools/locktable.py (clang AST -> lean/Mhd/Gen/Locks.lean: accesses to struct MHD_NonceNc members with "
+                    "the mutexes held on all paths; its fixpoints are re-checked in Lean by contextOk) and that a pthread "
+                    "mutex provides mutual exclusion",
                     "harness/h_nonce.c (fabricated daemon/connection, virtual clock), gcc, ASan/UBSan",
                     "the set-based reference oracle in tools/props/C13.py"]
-    assumptions = ["presentations are serialised by nnc_lock (the model step is the critical section); the locking "
-                   "itself is C18's subject",
-                   "nonces registered in the table are those made by calculate_nonce (hex digits, no NUL byte)",
+    assumptions = ["presentations are serialised by nnc_lock (the model step is the critical section): theorem "
+                   "nonce_table_accessed_only_under_lock over the regenerated lock table; dynamic validation of the locking "
+                   "(TSan) is C18's",
+                   "where a statement needs two hash values to differ (bound_*_rejected) that is an explicit hypothesis about "
+                   "the two concrete inputs; no cryptographic claim",
                    "a presented nonce contains no NUL byte (HTTP field values cannot; the harness can, and such "
                    "inputs are compared model-vs-code but not judged by the oracle)",
-                   "nonce derivation (hash of secret, address, URI...) is opaque data here (C12)",
+                   "the pseudo-random source of calculate_add_nonce_with_retry is random() / rand() (regenerated; the "
+                   "stack-address fallback of builds without both is refused by the generator)",
                    "the Authorization header parser is bypassed in the `auth` op (C14)"]
 
     def gen(self, ctx):
         gen_nonce()
+        gen_noncegen()
+        import locktable
+        world, info, data = locktable.generate()
+        # the two critical sections end on every path: nnc_lock is not held (not even possibly) when they return
+        self.lock_info = {"functions": info.get("functions"), "events": info.get("events"), "table_changed": info.get("changed")}
+        for fn in ("check_nonce_nc", "calculate_add_nonce"):
+            sm = world.summary(fn)
+            held = sorted(set(sm.exitMay) | set(sm.exitMust)) if sm is not None else ["<no summary>"]
+            self.lock_info[fn + "_exit_may_hold"] = held
+            if held:
+                raise vlib.BuildError("%s may return with %s held" % (fn, held))
 
     def build(self, ctx):
         objs = vlib.cc_lib_objects("lib_nonce", exclude=["digestauth.c", "mhd_mono_clock.c"])
@@ -782,8 +1018,19 @@ class Spec:
                "samples": samples, "branches": dict(sorted(stats.items())),
                "accepted_presentations": ok_like,
                "exhaustive_sequences": exh_total, "random_sequences": nrj * per, "corpus": len(corpus),
+               "generation": {"sequences": nrj * max(20, per // 4),
+                              "gen_ops (calculate_add_nonce, nonce bytes model = code)": sum(v for k, v in stats.items() if k.startswith("gen:")),
+                              "genr_ops (calculate_add_nonce_with_retry)": sum(v for k, v in stats.items() if k.startswith("genr:")),
+                              "by_bind_option": {b: sum(v for k, v in stats.items() if k.startswith("gen:gen/bind%d/" % b))
+                                                 for b in sorted({x | (2 if x & 4 else 0) for x in BINDS})},
+                              "retry_second_attempt_used": sum(v for k, v in stats.items() if k.startswith("genr:genr/second")),
+                              "algorithms": "MD5, SHA-256, SHA-512/256 (uniform)"},
+               "lock_table": getattr(self, "lock_info", None),
                "correspondence": {"check_nonce_nc": "bounded-exhaustive (see rule) + random",
                                   "calculate_add_nonce/is_slot_available": "bounded-exhaustive + random",
+                                  "calculate_nonce (all binding options x 3 algorithms x methods / urls / GET arguments / "
+                                  "IPv4, IPv6, no address / seeds / realms), calculate_add_nonce_with_retry (scripted clock "
+                                  "and random())": "random (gen / genr ops), nonce bytes compared model vs code",
                                   "get_nonce_timestamp": "random %d strings (+ every call above)" % (20000 if thorough else 3000),
                                   "fast_simple_hash": "exhaustive for lengths 0 and 1, random for longer",
                                   "digest_auth_check_all(_inner) vetting sequence": "random (auth op)",
